@@ -57,6 +57,9 @@ def _build(sp):
         rs = {'cls': 'EllipsePixelRegion', 'center': sp['center'],
               'width': 2 * sp['a'], 'height': 2 * sp['b'],
               'angle': sp.get('angle')}
+    # object history (vf.spec.build): constructed directly, or constructed
+    # elsewhere / USED / edited by assignment or in place
+    rs['build'] = sp.get('build', 'direct')
     return rs, S.build(rs)
 
 
@@ -116,6 +119,8 @@ class ExactGeneric(Relation):
             if kind == 'ellipse':
                 d['b'] = min(max(a * 10.0 ** lr, 1e-3), 1e3)
                 d['angle'] = ang
+            d['build'] = ('direct', 'direct', 'direct', 'assign', 'reuse',
+                          'inplace')[int(ts[0] * 6) % 6] if a < 100 else 'direct'
             return d
         return st.tuples(
             st.sampled_from(['ellipse', 'ellipse', 'circle']),
